@@ -35,6 +35,20 @@ func cmdMemIO(args []string) {
 	}
 }
 
+// equalForeign calls Equal with a value that is not a MapMemory: the same contents as a plain map (0), nil, a
+// DumbMemory, a pointer to the MapMemory itself.
+func equalForeign(mm z80.MapMemory, code int) bool {
+	switch code {
+	case 1000001:
+		return mm.Equal(nil)
+	case 1000002:
+		return mm.Equal(make(z80.DumbMemory, 16))
+	case 1000003:
+		return mm.Equal(&mm)
+	}
+	return mm.Equal(map[uint16]uint8(mm))
+}
+
 type mobj struct {
 	id   int
 	kind string
@@ -183,14 +197,17 @@ func memioSequence(r *rand.Rand, w *bufio.Writer, idc *int, lens []int, nops int
 			var ret bool
 			other := p.id
 			switch {
+			case r.Intn(4) == 0: // something that is not a MapMemory value (never equal)
+				other = []int{0, 1000001, 1000002, 1000003}[r.Intn(4)]
+				ret = equalForeign(o.mm, other)
 			case p.kind == "mapmem":
 				ret = o.mm.Equal(p.mm)
 			case p.kind == "dumbmem":
-				other = 0
-				ret = o.mm.Equal(p.dm)
+				other = 1000002
+				ret = equalForeign(o.mm, other)
 			default:
 				other = 0
-				ret = o.mm.Equal(map[uint16]uint8(o.mm))
+				ret = equalForeign(o.mm, other)
 			}
 			fmt.Fprintf(w, `{"o":"equal","id":%d,"other":%d,"ret":%d}`+"\n", o.id, other, b2i(ret))
 		}
@@ -284,8 +301,8 @@ func cmdMemIOReplay(args []string) {
 			fmt.Fprintf(w, `{"o":"clear","id":%d}`+"\n", o.Id)
 		case "equal":
 			var ret bool
-			if o.Other == 0 {
-				ret = x.mm.Equal(map[uint16]uint8(x.mm))
+			if o.Other == 0 || o.Other > 1000000 {
+				ret = equalForeign(x.mm, o.Other)
 			} else {
 				ret = x.mm.Equal(objs[o.Other].mm)
 			}
